@@ -495,6 +495,8 @@ class C19(Check):
             got = B(m["elems"][i])
             if norm(orig) != norm(got):
                 raise Violation("DenseMatrix element %d changed: %s -> %s" % (i, json.dumps(orig)[:400], json.dumps(got)[:400]))
+            if m["bits"][i] != res[k + n + 2 + 2 * i]:
+                raise Violation("DenseMatrix element %d: double bit patterns changed: %s -> %s" % (i, res[k + n + 2 + 2 * i], m["bits"][i]))
         if m["distinct_out"] > m["distinct_in"]:
             raise Violation("DenseMatrix sharing lost: %d distinct element objects before, %d after" % (m["distinct_in"], m["distinct_out"]))
         if n >= 2:
